@@ -11,6 +11,7 @@ import (
 	"fmt"
 	"math/big"
 	"net"
+	"os"
 	"sync"
 	"time"
 
@@ -237,7 +238,11 @@ func (b *Bed) newReader(cfg ReaderCfg, path string, onPacket func(medi *descript
 		}
 	}
 	c.OnPacketsLost = func(_ uint64) {}
-	c.OnDecodeError = func(_ error) {}
+	c.OnDecodeError = func(err error) {
+		if os.Getenv("VERIF_DEBUG_DECODE") != "" { // development aid
+			fmt.Fprintln(os.Stderr, "reader decode error:", err)
+		}
+	}
 	if cfg.Extra != nil {
 		cfg.Extra(c)
 	}
